@@ -209,6 +209,15 @@ def oracle(case, obs, want=("C10", "C07")):
         elif tag == T_DECODE:
             if v[0] == 0 and "C10" in want and v[1] in registered:
                 return "acceptonce: op %d decode_pn accepted %d which was registered as received at t=%d" % (k, v[1], registered[v[1]])
+            if "C07" in want and 1 <= args[0] <= 4:
+                # RFC 9000 A.3: the truncated number is expanded around (largest received packet number) + 1, whatever
+                # has happened to the records since (acknowledged, confirmed, rotated out)
+                exp = (max(registered) + 1) if registered else 0
+                wantpn = rfc_decode(args[0], args[1] % (1 << (8 * args[0])), exp)
+                if v[0] == 0 and v[1] != wantpn:
+                    return "rcvdecode: op %d decode_pn(U%d(%d)) = %d, RFC 9000 A.3 with largest received %d gives %d" % (k, 8 * args[0], args[1], v[1], exp - 1, wantpn)
+                if v[0] != 0 and registered and wantpn > max(registered) and wantpn < 2**62:
+                    return "rcvdecode: op %d decode_pn(U%d(%d)) refused (%d) the new packet number %d (largest received %d)" % (k, 8 * args[0], args[1], v[0], wantpn, exp - 1)
         elif tag == T_RCVD:
             registered.setdefault(args[0], now)
             rdump = None
@@ -532,6 +541,57 @@ def gen_cap_sweep(bits, prefix):
     return cases
 
 
+def gen_many_ranges(rng, count, prefix):
+    """received sets with 60..70 gaps (the Range Count field crosses its 1-byte/2-byte varint boundary at 64) and
+    capacities swept around the exact size of the frame cut after m ranges, m = 60 .. all"""
+    cases = []
+    for i in range(count):
+        R = rng.choice([62, 63, 64, 65, 66, 67, 70])
+        pns = []
+        x = rng.choice([0, 1, 5, 100, 16000])
+        for _ in range(R + 1):
+            ln = rng.choice([1, 1, 2, 3])
+            pns += list(range(x, x + ln))
+            x += ln + rng.choice([1, 1, 2, 3, 70])
+        largest = pns[-1]
+        runs = runs_desc(set(pns), largest)
+        caps = set()
+        for m in range(max(1, len(runs) - 8), len(runs) + 1):
+            sz = full_size(largest, 0, runs[:m])
+            caps |= {sz - 1, sz, sz + 1}
+        caps = sorted(caps)
+        rng.shuffle(caps)
+        ops = [(T_RCVD, [p, 1, 10]) for p in pns]
+        for j, cap in enumerate(caps[:8]):
+            ops += [(T_RDUMP, []), (T_GENACK, [j + 1, largest, 0, cap])]
+        ops += [(T_RDUMP, []), (T_GENACK, [20, largest, 0, 1200]), (T_RDUMP, [])]
+        cases.append(Case("%s%d" % (prefix, i), ops, cfg=[-1], meta={"side": "rcvd"}))
+    return cases
+
+
+def gen_drained(rng, count, prefix):
+    """late in the connection: everything received so far is acknowledged, our ACK is confirmed by the peer and the
+    records are rotated out (empty journal with a non-zero offset); then new packet numbers are decoded"""
+    cases = []
+    for i in range(count):
+        P = rng.choice([300, 700, 3000, 255 + rng.randint(0, 600)])        # small: the models keep one cell per number
+        el = rng.randint(0, 1)
+        ops = [(T_RCVD, [P + j, el if j == 0 else rng.randint(0, 1), 10]) for j in range(rng.randint(1, 3))]
+        top = P + len(ops) - 1
+        ops += [(T_GENACK, [1, top, 0, 1200]), (T_PEERACK, [1, 0, 0]), (T_TICK, [rng.choice([1, 40, 400])]), (T_PEERACK, [1, 0, 0]), (T_RDUMP, [])]
+        for d in rng.sample([1, 2, 5, 100, 127, 128, 300], 4):
+            pn = top + d
+            # the 1-byte form is legal whenever fewer than 128 numbers are outstanding (other stacks use it)
+            w = 1 if d < 128 and rng.random() < 0.7 else 2
+            ops.append((T_DECODE, [w, pn % (1 << (8 * w))]))
+            if rng.random() < 0.5:
+                ops.append((T_RCVD, [pn, 1, 10]))
+                top = max(top, pn)
+        ops.append((T_RDUMP, []))
+        cases.append(Case("%s%d" % (prefix, i), ops, cfg=[rng.choice([-1, 0, 25])], meta={"side": "rcvd"}))
+    return cases
+
+
 def gen_guard_exhaustive(prefix):
     """every sequence of 3 guard lives over {0,1,2 frames} x trivial x {build_with_time, build_trivial, drop} that
     respects the guard discipline, followed by acks of every packet number in both orders"""
@@ -562,6 +622,8 @@ def gen(rng, tier):
     q = tier == "quick"
     cases = gen_cap_sweep(7 if q else 9, "cap")
     cases += gen_guard_exhaustive("g3-")
+    cases += gen_many_ranges(rng, 40 if q else 1500, "mr")
+    cases += gen_drained(rng, 30 if q else 600, "dr")
     cases += [gen_rcvd_case(rng, "r%d" % i) for i in range(1500 if q else 30000)]
     cases += [gen_rcvd_case(rng, "rb%d" % i, big=True) for i in range(6 if q else 80)]
     cases += [gen_sent_case(rng, "s%d" % i) for i in range(1500 if q else 30000)]
